@@ -324,7 +324,7 @@ def run(tier, seed):
     run.assumptions = ["the currency overlay is exercised with the repository's snapshot (tests/currency.snapshot.json)"]
     run.exhaustive = True
     probe = worker_probe()
-    reloads = 3 if tier == "quick" else 20
+    reloads = 3 if tier == "quick" else 60
     dumps = []
     for variant, steps in (("bundled", [{"kind": "text", "source": "bundled"}, {"kind": "dates"}]),
                            ("bundled+currency", [{"kind": "text", "source": "bundled"}, {"kind": "dates"},
